@@ -1,18 +1,18 @@
-\* the tree BEFORE the deadlock fix: callbacks under the queue mutex. TLC must report a deadlock.
-\* counted): deadlock checking ON, all safety invariants.  2 peers, 2 callers x 3 operations.
+\* the tree BEFORE the deadlock fix: releaseExpired calls back into the pool while holding the queue
+\* mutex. TLC must report the ABBA deadlock (NoLockCycle gives the shortest schedule); checks/C17.py then
+\* forces that schedule on the real code with gates.
 SPECIFICATION Spec
 CONSTANTS
   Peers = {"p1", "p2"}
   Callers = {"c1", "c2"}
   TimerSlots <- TwoSlots
-  TTL = 2
-  MaxTime = 3
+  TTL = 1
+  MaxTime = 1
   MaxOps = 2
-  OpNames <- OpsCore
+  OpNames <- OpsDeadlock
   CleanupThreshold = 2
   Atomic = FALSE
   CallbacksUnderQueueLock = TRUE
   CountCooldowns = TRUE
 VIEW view
-INVARIANTS TypeOK CountExact ListStatusConsistent HasPeerExact OnlyActiveOffered NoEarlyReturn
-  CooldownNotLost QueueTimerLive CooldownsExact SlotsSuffice SingleTimer LockSane
+INVARIANTS NoLockCycle
